@@ -91,12 +91,24 @@ Fixpoint crosses_list (p : list field) (t : otree) {struct p} : bool :=
     end
   end.
 
+(* known-finding signature 52: a named policy other than replace on a path one of whose
+   enclosing containers is replaced wholesale by the policy in force there (the global one, or
+   another named one): the old subtree is dropped with its container before the named policy is
+   looked up *)
+Definition under_replace (h : N) (specs : list (string * N)) : bool :=
+  existsb (fun sp =>
+             let p := spec_path (fst sp) in
+             negb (pol_replace (snd sp)) &&
+             existsb (fun k => pol_replace (polf h specs (firstn k p))) (seq 0 (List.length p)))
+          specs.
+
 Definition signature (c : case) : N :=
   match c with
-  | CFieldMerge _ specs _ a b _ _ =>
+  | CFieldMerge h specs _ a b _ _ =>
     if existsb (fun sp => crosses_list (spec_path (fst sp)) (strip a) ||
                           crosses_list (spec_path (fst sp)) (strip b)) specs
-    then 31%N else 0%N
+    then 31%N
+    else if under_replace h specs then 52%N else 0%N
   end.
 
 Definition verdict (c : case) : N :=
